@@ -532,6 +532,23 @@ func TestChildNesting(t *testing.T) {
 	fi, _ := strconv.Atoi(os.Getenv("VERIF_CASE"))
 	depth, _ := strconv.Atoi(os.Getenv("VERIF_DEPTH"))
 	stream := nestFamilies[fi].build(depth)
+	// the cap must not depend on what the connection has seen before: a
+	// prefix of ordinary responses full of empty lists (no flags, no
+	// attributes) precedes the nested one
+	if n, _ := strconv.Atoi(os.Getenv("VERIF_EMPTYLISTS")); n > 0 {
+		var b strings.Builder
+		for i := 0; i < n; i++ {
+			switch i % 3 {
+			case 0:
+				fmt.Fprintf(&b, "* %d FETCH (FLAGS ())\r\n", i+1)
+			case 1:
+				fmt.Fprintf(&b, "* LIST () \"/\" box%d\r\n", i)
+			default:
+				b.WriteString("* FLAGS ()\r\n")
+			}
+		}
+		stream = b.String() + stream
+	}
 	var before, after runtime.MemStats
 	runtime.ReadMemStats(&before)
 	d, rerr := runStream(t, []byte(stream), "nesting")
@@ -547,19 +564,23 @@ func TestChildNesting(t *testing.T) {
 
 func TestReplayNesting(t *testing.T) {
 	for fi, fam := range nestFamilies {
-		for _, depth := range []int{10, 999, 1001, 5000, 100000} {
+		for di, depth := range []int{10, 999, 1001, 5000, 100000, 1001, 5000} {
+			emptyLists := 0
+			if di >= 5 {
+				emptyLists = 9000 // history of the connection before the nested response
+			}
 			cmd := exec.Command(os.Args[0], "-test.run", "^TestChildNesting$", "-test.v")
-			cmd.Env = append(os.Environ(), "VERIF_CHILD=1", "VERIF_CASE="+strconv.Itoa(fi), "VERIF_DEPTH="+strconv.Itoa(depth), "VERIF_OUT=", "VERIF_INFLIGHT=")
+			cmd.Env = append(os.Environ(), "VERIF_CHILD=1", "VERIF_CASE="+strconv.Itoa(fi), "VERIF_DEPTH="+strconv.Itoa(depth), "VERIF_EMPTYLISTS="+strconv.Itoa(emptyLists), "VERIF_OUT=", "VERIF_INFLIGHT=")
 			out, err := cmd.CombinedOutput()
 			ev.Eval()
-			ev.NonTrivial(fmt.Sprint("nest", fam.name, depth))
+			ev.NonTrivial(fmt.Sprint("nest", fam.name, depth, emptyLists))
 			ev.Class("nesting-probe")
 			if err != nil || !strings.Contains(string(out), "CHILD-OK") {
 				s := string(out)
 				if len(s) > 1800 {
 					s = s[:1800]
 				}
-				t.Fatalf("nesting probe %q at depth %d: the client process failed (%v):\n%s", fam.name, depth, err, s)
+				t.Fatalf("nesting probe %q at depth %d (after %d empty lists on the connection): the client process failed (%v):\n%s", fam.name, depth, emptyLists, err, s)
 			}
 			// resource linearity: allocation at most 300 bytes per input byte + 8 MiB
 			var alloc, input int64
